@@ -1334,6 +1334,20 @@ fn check_text<T: Tgt>(s: &str, c: &Case) -> Result<(), Bad> {
             }
         }
     }
+    // "Ordinary float literals keep exactly the value they have without the extension": whatever
+    // the option-off reading accepts as a float (also the lenient spellings of the standard
+    // library and its Unicode trimming) reads the same with the option on.
+    if digits <= 1000 {
+        if let Ok(v) = &off {
+            let (on, same) = match c.target {
+                Target::F64 => (show_r(&un), un.as_ref().is_ok_and(|u| show_r(&Ok::<f64, String>(*u)) == show_r(&Ok::<T, String>(*v)))),
+                Target::F32 => (show_r(&n32), n32.as_ref().is_ok_and(|u| show_r(&Ok::<f32, String>(*u)) == show_r(&Ok::<T, String>(*v)))),
+            };
+            if !same {
+                return fail(format!("{:?} is a float without the option ({}) but reads as {} with it", clip(s), v.show(), on));
+            }
+        }
+    }
     // [MD] FromF64: the f32 result is the f64 result converted (checked for non-literals; for
     // literals the rule above is the stronger one)
     if !core_literal(t4) {
